@@ -65,7 +65,7 @@ theorem agree_strlike (visit : Bytes → FromValue.R) (v : JV) (hv : VOK v) :
   have ht := headOf_tests hc
   cases v with
   | str s =>
-    have hu : Spec.Utf8.validUtf8 s = true := by simpa [shapeW] using hv.1
+    have hu : Spec.Utf8.validUtf8 s = true := by simpa [VOK, shapeW] using hv
     have hq := deStr_quote ext hflt visit s hu rest pos
     simp only []
     cases hvis : visit s with
@@ -98,8 +98,11 @@ theorem deSeq_open (t : Nat) (visit : Bytes → Nat → TOut) (tl : Bytes) (pos 
   rw [withPeek_cons env _ (by decide)]
   simp only [beq_self_eq_true, if_true, htd, Bool.false_eq_true, if_false]
 
-/-- byte buffers: a string (raw: escapes decoded, no validation) or an array of `u8` -/
-theorem agree_bytes (t : Nat) (v : JV) (hv : VOK v) (hd : DepthOK env t v) :
+/-- byte buffers: a string (raw: escapes decoded, no validation) or an array of `u8`. `hfl`: a float among the elements is
+    refused by `deserialize_u8` (see `agree_int`) -/
+theorem agree_bytes (t : Nat) (v : JV) (hv : VOK v) (hd : DepthOK env t v)
+    (hfl : ∀ xs, v = .arr xs → ∀ x ∈ xs, ∀ b, x = .num (.float b) → ∀ rest pos, SepOK rest → ∀ y r p,
+      deInt env .u8 (T ext x ++ rest) pos ≠ .ok y r p) :
     Agree1 (deBytes env t) (FromValue.fromValue cfg' ext' .bytes v) (T ext v) := by
   intro rest pos hs
   obtain ⟨c, tl, hT, hc⟩ := T_head ext hext v hv
@@ -124,7 +127,7 @@ theorem agree_bytes (t : Nat) (v : JV) (hv : VOK v) (hd : DepthOK env t v) :
       have hvx := vok_elem xs x hx hv
       refine ⟨?_, T_head ext hext x hvx⟩
       have e : deInt env .u8 = deNumber env (.int .u8) := by funext r p; simp [deInt, is128, IntTy.bits]
-      have := agree_int ext hext hflt cfg' hap ext' .u8 x hvx
+      have := agree_int ext hext hflt cfg' hap ext' .u8 x hvx (hfl xs rfl x hx)
       rw [e] at this
       simpa [FromValue.fromValue] using this
     have hloop := seqLoop_text ext hext hflt cfg' hap (deNumber env (.int .u8)) (FromValue.deInt cfg' .u8) xs hel true []
